@@ -3,10 +3,17 @@
 Part A (numeric lattices, X-num)
   int   N = 1..60: every harmonic sum (direct call and fresh-cache lookup) against the exact rational
         nested sum of its definition, with the matching parity flag and with flag None.
-  cplx  complex lattice Re N in [0.5,50] x Im N in [-60,60]: one-step recurrence S(N+1)-S(N)=term(N+1)
-        (parity flag flipped for N+1), S(conj N) = conj S(N) for sums, cache slots, g- and log-functions.
+  cplx  complex lattice Re N in [0.5,50] x Im N in [-60,60] PLUS the points of eko's real Talbot contour
+        (t x x x offset, written out from the definition; Re N from -551 to 65, |Im N| up to 180, i.e. also
+        the reflection branch of cern_polygamma): one-step recurrence S(N+1)-S(N)=term(N+1)
+        (parity flag flipped for N+1), S(conj N) = conj S(N) for sums, cache slots, g- and log-functions,
+        single sums and the single-sum cache slots against their mpmath continuation.
+        The recurrence of the NESTED sums (fitted g-functions) is an oracle only for Re N > 0, where the
+        fits are approximations of convergent Mellin integrals; left of the imaginary axis it is measured.
   gq    every g-function against mpmath quadrature of its defining Mellin integral.
-  lm    every logarithmic Mellin transform against mpmath quadrature of its defining integral.
+  lm    every logarithmic Mellin transform against mpmath quadrature of its defining integral; at the
+        contour points with Re N < 0.5 (integral divergent) against its analytic continuation
+        d^k/de^k B(N,1+a+e).
 
 Part B (history exploration of ekore.harmonics.cache, X-hist)
   state       = set of filled cache slots (values are functions of (slot, N, parity) - that is what is checked)
@@ -34,13 +41,15 @@ LEVEL_TEXT = (
     "Every lookup history over the 31 cache keys up to the stated depth is replayed on the real cache "
     "(state = set of filled slots) and every returned value and every slot filled as a side effect is "
     "compared with direct evaluation; the harmonic sums are decided on N=1..60 against exact rational "
-    "sums and on a complex lattice for recurrence/conjugation, g- and log-functions against quadrature "
-    "of their defining integrals."
+    "sums and on a complex lattice incl. points of eko's real Talbot contour (Re N down to -551) for "
+    "recurrence/conjugation and, for the single sums, against their mpmath continuation; g- and log-functions "
+    "against quadrature of their defining integrals (log-functions left of Re N = 0.5 against the continued integral)."
 )
 LEVEL_NOTE = (
     "Between lattice points nothing is claimed. Nested sums of weight >=3 are parametrisations: 'equal' "
     "means within the accuracy eko documents/tests (<=1e-5 absolute), per-function tolerances calibrated "
-    "with >=10x head-room. History states are merged on the set of filled slots (depth-3 histories are "
+    "with >=10x head-room, and only for Re N > 0 (where the fitted Mellin integrals exist); left of the "
+    "imaginary axis their recurrence is measured, not demanded. History states are merged on the set of filled slots (depth-3 histories are "
     "additionally enumerated without merging in thorough). mpmath is trusted."
 )
 FLOOR_NONTRIVIAL = 50
@@ -56,7 +65,36 @@ GQ_IM_Q = [0.0, 13.7]
 GQ_RE_T = [0.5, 1.0, 1.5, 2.0, 7.3, 14.0, 15.5, 30.0, 50.0]
 GQ_IM_T = [0.0, 0.3, 1.0, 7.0, 13.7, 60.0]
 
-# history lattice: (N, parity flag). even/odd integer, generic complex, far point of the contour range
+# eko's Mellin inversion path (eko.mellin.Path / Talbot_path written out from the definition):
+#   N(t, x, o) = o + r (theta cot(theta) + i theta),  theta = pi (2t-1),  r = 0.4*16/(0.1 - ln x),
+# o = 1 for singlet-like, 0 for non-singlet-like kernels; quad integrates t over [0.5, 1 - mellin_cut] = [0.5, 0.95]
+# (the lower half is obtained by conjugation).
+TALBOT_T = [0.5, 0.7, 0.8, 0.9, 0.95]
+TALBOT_X_Q = [1e-7, 1e-2, 0.5, 0.9]
+TALBOT_X_T = [1e-7, 1e-4, 1e-2, 0.1, 0.5, 0.9, 0.999]
+
+
+def talbot(t, x, o):
+    import math
+
+    r = 0.4 * 16.0 / (0.1 - math.log(x))
+    theta = math.pi * (2.0 * t - 1.0)
+    re = 1.0 if t == 0.5 else theta / math.tan(theta)
+    return complex(o + r * re, r * theta)
+
+
+def contour_cases(xs):
+    out = []
+    for x in xs:
+        for t in TALBOT_T:
+            for o in (0, 1):
+                N = talbot(t, x, o)
+                out.append({"kind": "cplx", "re": N.real, "im": N.imag, "contour": {"t": t, "x": x, "o": o}})
+    return out
+
+
+# history lattice: (N, parity flag). even/odd integer, generic complex, far point of the contour range,
+# a left-half-plane contour point (x = 0.1, t = 0.9, o = 1: reflection branch of the polygammas)
 HLAT = [
     (2.0, 0.0, True),
     (2.0, 0.0, None),
@@ -67,6 +105,8 @@ HLAT = [
     (1.5, 0.5, None),
     (20.25, -31.0, True),
     (20.25, -31.0, False),
+    (-8.215, 6.695, True),
+    (-8.215, 6.695, False),
 ]
 
 # tolerances -------------------------------------------------------------------
@@ -94,7 +134,8 @@ TOL_G = {  # relative to max(1,|g|); measured maxima over the thorough lattice i
     "g21": 4e-6,  # 3.6e-7
     "g22": 1e-7,  # 3.9e-9
 }
-TOL_LM = 1e-11  # closed forms: rounding, relative
+TOL_LM = 1e-11  # closed forms: rounding, relative (measured 1.3e-14 right of 0.5, 4.9e-13 on the left contour points)
+TOL_VAL = 1e-12  # single sums / single-sum cache slots vs mpmath continuation, relative to max(1,|S|); measured 3.8e-14
 TOL_CONJ = 1e-13
 TOL_CACHE = 1e-12
 
@@ -266,7 +307,13 @@ def _eval_cplx(case):
     N = complex(case["re"], case["im"])
     res = Result()
     idx = slot_index()
-    mx = {"rs": 0.0, "rn": 0.0, "cj": 0.0, "val": 0.0, "im": 0.0}
+    mx = {"rs": 0.0, "rn": 0.0, "cj": 0.0, "val": 0.0, "im": 0.0, "left": 0.0, "slot": 0.0}
+    # the fitted g-functions approximate Mellin integrals that converge for Re N > 0 only; eko documents/tests
+    # their accuracy there (integer N = 1..100, 1+1j). Left of the imaginary axis the recurrence of the nested
+    # sums is measured, not demanded (single sums: exact continuations, demanded everywhere).
+    nested_oracle = N.real > 0
+    region = "left" if N.real < 0 else "right"
+    half = {"h": N / 2, "mh": (N - 1) / 2, "ph": (N + 1) / 2, "p2": N + 2}
     with mp.workdps(R.DPS):
         for flag in (True, False):
             eta = 1 if flag else -1
@@ -277,7 +324,10 @@ def _eval_cplx(case):
                 # recurrence: the index N+1 has the opposite parity
                 t = _c(R.term(ix, N + 1, -eta))
                 dev = abs(_c(b[k]) - _c(a[k]) - t)
-                if k in TOL_NESTED:
+                if k in TOL_NESTED and not nested_oracle:
+                    mx["left"] = max(mx["left"], dev)
+                    bad = False
+                elif k in TOL_NESTED:
                     mx["rn"] = max(mx["rn"], dev / TOL_NESTED[k])
                     bad = not dev <= TOL_NESTED[k]
                 else:
@@ -302,11 +352,17 @@ def _eval_cplx(case):
                     mx["im"] = max(mx["im"], dev)
                     if not dev <= TOL_CONJ:
                         res.fail(f"harmonics.{k}/real-at-real-N/flag={flag}", f"N={N}: S={_c(a[k])!r}")
-                # measured only: distance to the mpmath continuation of the single sums
+                # single sums are exact continuations: distance to the independent mpmath continuation
                 if len(ix) == 1:
-                    ref = R.S(ix[0], N) if ix[0] > 0 else R.Sm(-ix[0], N, eta)
-                    mx["val"] = max(mx["val"], abs(_c(ref) - _c(a[k])) / max(1.0, abs(a[k])))
-            # cache slots: conjugation
+                    ref = _c(R.S(ix[0], N) if ix[0] > 0 else R.Sm(-ix[0], N, eta))
+                    dev = abs(ref - _c(a[k])) / max(1.0, abs(ref))
+                    mx["val"] = max(mx["val"], dev)
+                    if not dev <= TOL_VAL:
+                        res.fail(
+                            f"harmonics.{k}/continuation/region={region}/flag={flag}",
+                            f"N={N}: eko={_c(a[k])!r} mpmath continuation={ref!r} reldev={dev:.3e}",
+                        )
+            # cache slots: conjugation; single-sum slots (incl. the half/shifted arguments) vs mpmath
             for name, i in idx.items():
                 v = _c(c.get(i, c.reset(), N, flag))
                 w = _c(c.get(i, c.reset(), N.conjugate(), flag))
@@ -314,6 +370,21 @@ def _eval_cplx(case):
                 mx["cj"] = max(mx["cj"], dev)
                 if not dev <= TOL_CONJ:
                     res.fail(f"cache.get/{name}/conjugation/flag={flag}", f"N={N}: {w!r} vs conj {v!r}")
+                ref = None
+                if name in R.SUMS and len(R.SUMS[name]) == 1:
+                    m = R.SUMS[name][0]
+                    ref = R.S(m, N) if m > 0 else R.Sm(-m, N, eta)
+                elif name[0] == "S" and name[1] in "123" and name[2:] in half:
+                    ref = R.S(int(name[1]), half[name[2:]])
+                if ref is not None:
+                    ref = _c(ref)
+                    dev = abs(v - ref) / max(1.0, abs(ref))
+                    mx["slot"] = max(mx["slot"], dev)
+                    if not dev <= TOL_VAL:
+                        res.fail(
+                            f"cache.get/{name}/continuation/region={region}/flag={flag}",
+                            f"N={N}: cache returned {v!r}, mpmath continuation {ref!r} reldev={dev:.3e}",
+                        )
         for name in R.G_DEF:
             v, w = _c(g_eko(name, N)), _c(g_eko(name, N.conjugate()))
             dev = abs(w - v.conjugate()) / max(1.0, abs(v))
@@ -331,9 +402,12 @@ def _eval_cplx(case):
         "max_recurrence_nested_dev_over_tol": mx["rn"],
         "max_conjugation_reldev": mx["cj"],
         "max_imag_at_real_N": mx["im"],
-        "max_simple_vs_mpmath_continuation_reldev_info_only": mx["val"],
+        "max_simple_vs_mpmath_continuation_reldev": mx["val"],
+        "max_single_sum_cache_slot_vs_mpmath_reldev": mx["slot"],
     }
-    res.outcome = "cplx-real" if N.imag == 0 else "cplx"
+    if not nested_oracle:
+        res.info["max_nested_recurrence_dev_left_of_imaginary_axis_info_only"] = mx["left"]
+    res.outcome = ("cplx-real" if N.imag == 0 else "cplx") + ("" if nested_oracle else "-left")
     return res
 
 
@@ -364,6 +438,23 @@ def _eval_lm(case):
     k, a, _n = LM[name]
     res = Result()
     v = _c(lm_eko(name, N))
+    if case.get("continued"):
+        # Re N < 0.5: the integral diverges (or barely converges); the closed forms are analytic in N and must equal the
+        # continuation of the integral, d^k/de^k B(N, 1+a+e) at e = 0 (two working precisions must agree)
+        ref = R.log_beta(k, a, N)
+        ref2 = R.log_beta(k, a, N, dps=R.DPS + 15)
+        q = float(abs(ref - ref2) / abs(ref2))
+        if q > 1e-20:
+            raise RuntimeError(f"reference derivative of the Beta function not stable for {name} at N={N}: {ref} vs {ref2}")
+        dev = abs(v - _c(ref)) / abs(_c(ref))
+        if not dev <= TOL_LM:
+            res.fail(
+                f"log_functions.{name}/continued-integral",
+                f"N={N}: eko={v!r} d^{k}/de^{k} B(N,{1 + a}+e)={_c(ref)!r} reldev={dev:.3e}",
+            )
+        res.info = {"max_lm_continued_reldev": dev, "max_lm_continued_reference_selfcheck": q}
+        res.outcome = "lm-continued"
+        return res
     ref = R.log_integral(k, a, N)
     # harness self-check: the quadrature must reproduce the Beta-function derivative d^k/de^k B(N,1+a+e)
     ref2 = R.log_beta(k, a, N)
@@ -490,8 +581,17 @@ def run(ctx):
 
     cases = [{"kind": "int", "N": n} for n in range(1, 61)]
     cases += [{"kind": "cplx", "re": r, "im": i} for r in RE for i in IM]
+    contour = contour_cases(TALBOT_X_T if th else TALBOT_X_Q)
+    cases += contour
     cases += [{"kind": "gq", "fn": f, "re": r, "im": i} for f in R.G_DEF for r in GRE for i in GIM]
     cases += [{"kind": "lm", "fn": f, "re": r, "im": i} for f in LM for r in GRE for i in GIM]
+    left = [cc for cc in contour if cc["re"] < 0.5]
+    cases += [
+        {"kind": "lm", "fn": f, "re": cc["re"], "im": cc["im"], "continued": True, "contour": cc["contour"]}
+        for f in LM
+        for cc in left
+    ]
+    n_left_nested = sum(1 for cc in contour if not cc["re"] > 0)
     n_num = len(cases)
     ctx.run_cases(cases, evaluate, chunksize=1)
 
@@ -523,9 +623,16 @@ def run(ctx):
     ctx.rule = (
         f"numeric part: N=1..60 x (matching parity, None) x 19 sums x (direct, fresh cache); complex lattice "
         f"{len(RE)}x{len(IM)} (Re N in [0.5,50] incl. both sides of cern_polygamma's |Re z|=15 switch, Im N in "
-        f"[-60,60] incl. 0) x 2 parities x 19 sums for recurrence and conjugation, plus conjugation of all 31 "
+        f"[-60,60] incl. 0) plus {len(contour)} points of eko's Talbot contour N(t,x,o), t in {TALBOT_T} x x in "
+        f"{TALBOT_X_T if th else TALBOT_X_Q} x offset 0/1 (Re N from {min(cc['re'] for cc in contour):.0f} to "
+        f"{max(cc['re'] for cc in contour):.0f}, |Im N| up to {max(cc['im'] for cc in contour):.0f}; "
+        f"{sum(1 for cc in contour if cc['re'] < 0)} of them with Re N < 0 = reflection branch of cern_polygamma), each x 2 parities "
+        f"x 19 sums for recurrence and conjugation (recurrence of the 9 nested sums demanded for Re N > 0, measured only at the "
+        f"{n_left_nested} contour points left of the imaginary axis), the 10 single sums and the 20 single-sum cache slots "
+        f"(incl. half and shifted arguments) against their mpmath continuation, plus conjugation of all 31 "
         f"cache slots, 9 g-functions, 14 log-functions; 9 g-functions x {len(GRE)}x{len(GIM)} and 14 log-functions x "
-        f"{len(GRE)}x{len(GIM)} points against quadrature ({n_num} numeric cases). history part: breadth-first over "
+        f"{len(GRE)}x{len(GIM)} points against quadrature, 14 log-functions x {len(left)} contour points with Re N < 0.5 "
+        f"against the continued integral d^k/de^k B(N,1+a+e) ({n_num} numeric cases). history part: breadth-first over "
         f"lookup histories of the 31 keys to depth {depth} (every key applied to every distinct state = set of "
         f"filled slots; at depth 2 that is all 31^2 ordered pairs), each replayed on a fresh cache at "
         f"{len(HLAT)} (N, parity) points; every returned value, every newly filled slot, every untouched slot "
@@ -539,6 +646,16 @@ def run(ctx):
         "recurrence for alternating sums relates S^{eta}(N) to S^{-eta}(N+1) (the index N+1 has opposite parity)",
         "nested sums (weight>=3 with the fitted g-functions) are required to hold within per-function absolute "
         "tolerances 1e-7..2e-5 (eko's own tests use 1e-5/1e-6); single sums within 1e-12 relative",
+        "accuracy classes: single sums, their cache slots and the log-functions are exact continuations (polygamma / "
+        "closed forms) and are demanded at every lattice point incl. the whole Talbot contour; the nested sums rest on "
+        "minimax fits of x-space functions on [0,1] (sums of a_k/(N+k)), which approximate the Mellin integrals where "
+        "these converge (Re N > 0) - that is where eko documents and tests them (integer N = 1..100, 1+1j) and where the "
+        "quantifier puts the lattice. Left of the imaginary axis no accuracy is documented: there the recurrence of the "
+        "nested sums is measured (evidence key max_nested_recurrence_dev_left_of_imaginary_axis_info_only: up to ~1.5e-2 "
+        "at x=1e-2, t=0.95, where the inversion weight |x^-N| is 1e-27 of its peak; <= 5e-6 wherever the weight is >= 1e-5) "
+        "and only conjugation symmetry is demanded",
+        "Talbot contour written out from eko.mellin's definition (r = 6.4/(0.1 - ln x), o = 0/1, t in [0.5, 0.95]); a change of "
+        "the path in eko does not move these lattice points",
         "g-functions: mellin_g3 transforms with x^(N-1), all others with x^N (Bluemlein's convention), as fixed "
         "by the nested sums they build at integer N",
         "cache states are merged on the set of filled slots; slot values are functions of (slot,N,parity) up to "
